@@ -131,9 +131,11 @@ class Sedov(ExactSolver):
         self.a_val = 0.25 * self.xg2 * self.gamp1
         self.b_val = self.gpogm
         self.c_val = 0.5 * self.xg2 * self.gamma
-        self.d_val = (self.xg2 * self.gamp1)/(self.xg2*self.gamp1 -
-                                              2.0 * (2.0 + self.geometry *
-                                                     self.gamm1))
+        # d_val carries the factor 1/(vstar - v2); the singular case does not use it
+        if self.solution_type != 'singular':
+            self.d_val = (self.xg2 * self.gamp1)/(self.xg2*self.gamp1 -
+                                                  2.0 * (2.0 + self.geometry *
+                                                         self.gamm1))
         self.e_val = 0.5 * (2.0 + self.geometry * self.gamm1)
 
         # Evaluate the energy integrals
